@@ -124,10 +124,37 @@ def _k3():
     return cfg
 
 
+def _k5():
+    """Leases next to reboot dates: a leased instance can be pending only
+    because of server lifetime; probes of the same shape class with a shorter
+    or no lease must still find the short-lived server."""
+    cfg = cellcfg.k5()
+    cfg['monitors'] = []
+    cfg['idgroups'] = {}
+    cfg['allow_nocycle'] = False
+    cfg['events'] = cellcfg.ev(
+        ('add', 'l1'), ('add', 'l7'), ('add', 'nl'), ('add', 'hi'),
+        ('rm', 0), ('rm', 1),
+        ('down', 's1'), ('up', 's1'),
+        ('tick', DAY // 2), ('tick', 3 * DAY),
+    )
+    cfg['probes'] = [
+        {'demand': [6, 2, 2], 'aff': 'b', 'rank': 100},
+        {'demand': [6, 3, 3], 'aff': 'b', 'rank': 100, 'lease': DAY // 2},
+        {'demand': [3, 3, 3], 'aff': 'a', 'rank': 100},
+        {'demand': [3, 3, 3], 'aff': 'a', 'rank': 100, 'lease': 7 * DAY},
+        {'demand': [10, 10, 10], 'aff': 'd', 'rank': 100, 'lease': DAY // 2},
+        {'demand': [6, 6, 6], 'aff': 'c', 'rank': 150, 'lease': DAY},
+    ]
+    return cfg
+
+
 def configs(ctx):
     if ctx.quick:
-        return [('K1', _k1(), 4, 0), ('K2', _k2(), 4, 0), ('K3', _k3(), 4, 0)]
-    return [('K1', _k1(), 6, 0), ('K2', _k2(), 6, 0), ('K3', _k3(), 6, 0)]
+        return [('K1', _k1(), 4, 0), ('K2', _k2(), 4, 0), ('K3', _k3(), 4, 0),
+                ('K5', _k5(), 4, 0)]
+    return [('K1', _k1(), 6, 0), ('K2', _k2(), 6, 0), ('K3', _k3(), 6, 0),
+            ('K5', _k5(), 6, 0)]
 
 
 RULE = ('BFS over histories (servers down/up/removed/re-added, instances '
